@@ -22,6 +22,7 @@ func init() {
 				"R1.gettype":    "complete truth table of GetType vs the statement's cascade; atoms used are only the stated ones",
 				"R2.labels":     "label table exhaustive and distinct; label composition",
 				"R3.principals": "truth table of GetPrincipals over all type constants; suffix helpers append the right constant to every element",
+				"R0.decodes":    "the type is 'unknown exactly when the KeyID does not decode': the rules of C05 that fix what decodes (truth table of the version checker, gates of keyid.Unmarshal / Marshal) are imported",
 			},
 		},
 		Run: runC19,
@@ -32,6 +33,7 @@ const certPkg = "sshutils/cert"
 
 func runC19(c *Ctx) {
 	w := c.w
+	c.WithRules(map[string]string{"R2.truth": "R0.decodes", "R3.gate": "R0.decodes"}, func() { keyidDecodeRules(c) })
 	p := w.ByPath[RepoMod+"/"+certPkg]
 	gt := w.Func(certPkg, "GetType")
 	if p == nil || gt == nil {
